@@ -626,6 +626,15 @@ func (r *collection) addService(service any, lifetime Lifetime, opts ...AddOptio
 		// Register each field as a separate service that points to the same constructor
 		fieldDescriptors := make([]*Descriptor, 0, len(descriptor.resultFields))
 		for _, field := range descriptor.resultFields {
+			// Same rule as for the Name and Group options: a service is either
+			// named or a group member
+			if field.Key != nil && field.Group != "" {
+				return &ValidationError{
+					ServiceType: field.Type,
+					Cause:       fmt.Errorf("cannot use both name and group tags on result field %s: name:%q provided with group:%q", field.Name, field.Key, field.Group),
+				}
+			}
+
 			// Create a descriptor for each field type
 			fieldDescriptor := &Descriptor{
 				Type:            field.Type,
